@@ -19,3 +19,4 @@ def run(ck):
     region.r6_7_normalise_after_last_change(ck, P)
     region.r6_8_extents_before_data_is_dropped(ck, P)
     region.r1_aliasing(ck, P)                    # C05-R1: an operand overwritten while it is read leaves a malformed region
+    region.r7_13_or_trick_exactness(ck, P, 'C06-R9')
